@@ -55,7 +55,7 @@ fn cargo_toml(pkg: &str, exec: bool) -> String {
         "wgpu = { version = \"=24.0.5\", default-features = false, features = [\"wgsl\"] }".to_string()
     };
     format!(
-        "[package]\nname = \"{pkg}\"\nversion = \"0.0.0\"\nedition = \"2021\"\n\n[dependencies]\n{wgpu}\nbytemuck = {{ version = \"1\", features = [\"derive\"] }}\nencase = {{ version = \"0.10\", features = [\"glam\"] }}\nglam = {{ version = \"0.29\", features = [\"bytemuck\", \"serde\"] }}\nserde = {{ version = \"1\", features = [\"derive\"] }}\nnalgebra = {{ path = \"{}\" }}\nprobe-support = {{ path = \"{}\" }}\n\n[profile.dev]\ndebug = 0\nopt-level = 0\nincremental = false\ncodegen-units = 32\n\n[workspace]\n",
+        "[package]\nname = \"{pkg}\"\nversion = \"0.0.0\"\nedition = \"2021\"\n\n[dependencies]\n{wgpu}\nbytemuck = {{ version = \"1\", features = [\"derive\", \"min_const_generics\"] }}\nencase = {{ version = \"0.10\", features = [\"glam\"] }}\nglam = {{ version = \"0.29\", features = [\"bytemuck\", \"serde\"] }}\nserde = {{ version = \"1\", features = [\"derive\"] }}\nnalgebra = {{ path = \"{}\" }}\nprobe-support = {{ path = \"{}\" }}\n\n[profile.dev]\ndebug = 0\nopt-level = 0\nincremental = false\ncodegen-units = 32\n\n[workspace]\n",
         h.join("shim-nalgebra").display(),
         h.join("probe-support").display()
     )
